@@ -329,8 +329,11 @@ static void warmup(const Scenario* sc, int tier)
 	}
 }
 
+static void workerProgress() { g_cur[64 + g_workerId]++; }
+
 static void workerMain(const std::vector<Job>& jobs, int w, int W, long startJob, int tier, double deadline, const std::string& sigPath, bool doWarm)
 {
+	setProgressHook(workerProgress);
 	setHardFailHandler(workerHardHandler);
 	setCrashWriter(workerCrashWriter);
 #ifndef VERIF_ASAN
@@ -1199,7 +1202,7 @@ int main(int argc, char** argv)
 	int live = W;
 	std::vector<long> lastBeat((size_t)W, -1);
 	std::vector<double> lastBeatAt((size_t)W, wallNow());
-	double hangLimit = 25.0;
+	double hangLimit = 40.0; // no schedule point and no finished run for this long = a real hang (runs that keep stepping are bounded by the step cap)
 	while (live > 0)
 	{
 		for (int w = 0; w < W; w++)
@@ -1221,7 +1224,7 @@ int main(int argc, char** argv)
 					f.hard = true;
 					f.cls = "liveness";
 					f.key = "wall_clock_hang";
-					f.msg = "run made no progress for 25 s of wall-clock time (worker killed)";
+					f.msg = "run executed no schedule point for 40 s of wall-clock time (worker killed)";
 					fails.push_back(f);
 					kill(ws[w].pid, SIGKILL);
 					lastBeatAt[w] = wallNow();
